@@ -4,6 +4,28 @@ import json, subprocess, os
 ROOT = os.path.dirname(os.path.dirname(os.path.abspath(__file__)))
 
 CHECKS = {
+
+ "C01": ("exploration", "runtime monitoring: single-leaf tampering of accepted instances executed on the real circuit code in a monitoring evaluation engine (whole circuit + isolated query rounds, cross-checked), reference verifier as monitor",
+         "Every kind of leaf of proof / public inputs / digest is perturbed (+1, -1, random, swap, zero) on real accepted proofs and the repository's Define code is executed; the verdict must be REJECT/REFUSE. Query-round leaves are decided by running the repository's verifyQueryRound for that round alone with the recorded transcript; the decomposition is monitored at every round index by whole-circuit runs. Circuit-description changes are judged when the independent reference rejects. Thorough enumerates every leaf position of all five proofs.",
+         "Engine stands in for compiled constraint systems on whole-verifier runs (agreement with gnark's engine sampled in C02); soundness against proofs of maliciously built circuits is out of reach (no plonky2 prover offline).", "§3/C01"),
+ "C02": ("exploration", "runtime monitoring of honest executions under every range-check configuration (engine faces + env-var child process + gnark test engine agreement) and shadow honest-bound monitor",
+         "All real proofs and their k-round prefix restrictions are executed through VerifierCircuit and CircuitFixed under the native, commit, bit-decomposition and env-forced configurations with the repository's own hint functions; all must be accepted; gnark's own test engine must agree; the shadow monitor requires every quotient's data-independent honest bound to fit its enforced width.",
+         "Honest proofs are limited to the five shipped proofs of two inner circuits and their restrictions.", "§3/C02"),
+ "C03": ("exploration", "runtime monitoring of CircuitFixed on forged limb assignments (limb + k*p, borrow shifts, random) + shadow wrap-freedom of the packing equality",
+         "CircuitFixed.Define is executed on the real circuit-A proofs with forged limb assignments and recomputed / truncated / perturbed public values; ACCEPT only for the true limbs and their packing; the shadow monitor checks the packing equality is wrap-free under the enforced limb bounds.",
+         "Solidity side (128-bit truncation) not executable offline; recorded as the reason V < 2^128 matters.", "§3/C03"),
+ "C04": ("exploration", "runtime monitoring of wrappers instantiated from a template with a differing proving-time verifier key (every key element perturbed, unselected cap entries computed from the recorded query indices)",
+         "Define of both wrappers is run on the template's constants with assignments whose verifier key differs (each of 17 elements +1/random/zero, other circuit's key/digest/cap, random key, all unselected cap entries). Verdict must not be ACCEPT. The unselected-cap-entry acceptances are a genuine defect listed in known_findings.json (KNOWN-FINDING lines).",
+         "Keys explored are perturbations of the real keys and the other real circuit's key.", "§3/C04"),
+ "C05": ("fault_enumeration", "shadow integer-bound monitor (data-independent interval sanitizer run to a fixpoint over executions of the real circuit) + hint-substitution adversary at every static hint site with in-scope rejection oracle + real R1CS solver replays (solver.OverrideHint)",
+         "Fault model: a prover substituting hint outputs at one call. Every static hint call chain of the verifier is enumerated from a recorded execution; alternative families (wrapped division, shifted quotient/remainder, field-solved quotient, limb borrow/carry, inverse variants) are injected at first/random/last dynamic instances and must be refused by the site's own constraints; the shadow monitor decides wrap-freedom of every MulAdd/Reduce/RangeCheck equality for all operand values within the enforced bounds.",
+         "Shadow monitor treats range-checked values as < 2^64 and does not cover the Commit face (deferred checks); families are finite.", "§3/C05"),
+ "C17": ("exploration", "runtime monitoring: every Goldilocks-typed proof leaf offset by k*p executed through the real circuit under honest-with-fallback and adversarial limb hints",
+         "Each Goldilocks-valued leaf of real proofs is replaced by value + k*p (k in {1,2,2^64,max}) and the whole circuit is executed under Native / Plain (and sampled Commit) faces with the honest hint (which refuses) replaced by a total fallback and by adversarial limb candidates; verdict must be REJECT. Thorough enumerates every position of all five proofs.",
+         "Public inputs excluded (the circuit deliberately reduces them).", "§3/C17"),
+ "C20": ("exploration", "runtime monitoring: reflection-driven list mutations and configuration edits executed through the real circuit",
+         "Every list kind of the proof structure is mutated (drop first/last, duplicate last, append zero, empty) and shape-prescribing configuration fields are edited against the unchanged proof; Define must panic/refuse or reject, never accept.",
+         "Configuration edits are limited to fields that prescribe shape / number of checks (see DESIGN.md §6 for the false-alarm correction).", "§3/C20"),
  # id: (level, technique, text, note, design_ref)
  "C06": ("exploration", "runtime accept-set monitoring of single-gadget circuits on compiled R1CS/SCS systems (real solver, hint overrides) and on the monitoring engine, per range-check mechanism",
          "Accept-sets of RangeCheck / RangeCheckWithMaxBits(n) are observed, existentially over honest and adversarial hint outputs, on gnark's real R1CS and SCS solvers and on the evaluation engine, for the native / commit / bit-decomposition mechanisms, and compared with the exact ranges on boundary and random values; held on the executions listed in the evidence.",
